@@ -17,5 +17,5 @@ try:
         print(seed, c, 'exit', p.returncode, (viol[0][:300] if viol else p.stdout.strip().splitlines()[-1][:300]))
 finally:
     subprocess.check_call(['git', '-C', '/repo', 'checkout', '--', '.'])
-    subprocess.run('rm -rf /verif/replays/*', shell=True)
+    subprocess.run('rm -rf /verif/replays/*; git -C /verif checkout -- evidence 2>/dev/null', shell=True)
 json.dump(meta, open(d + '/meta.json', 'w'), indent=1)
